@@ -50,7 +50,7 @@ class C20(Prop):
     assumptions = ["feedback messages are single-line", "pydot only used as a container (get_nodes/get_edges/get_name)"]
 
     def generate(self, rng, tier):
-        n = {"quick": 250, "thorough": 5000, "search": 2000}[tier]
+        n = {"quick": 1500, "thorough": 20000, "search": 2000}[tier]
         out = []
         for i in range(n):
             if i % 3 != 2:
